@@ -616,6 +616,23 @@ def run_case(case, ctx):
             opts = make_opts(rng, s, bc_kind, str(rng.choice(DIAG_KINDS)), const_kind, str(rng.choice(MTYPES[1:] if k == 0 else MTYPES)))
             run_instance(pym, s, opts, pick_xkinds(rng, s, 3), rng, ctx, worst, obs)
         key = f"{s.kind}/{part}/{nx}x{ny}x{nz}/{case.get('corner')}"
+    if s.kind == "stiffness":
+        # a complex Young's modulus (structural damping E(1 + i eta), as in the repository's own eigenvalue test): the matrix is linear
+        # in E, so K(E_c) = (E_c / E) K(E) entry by entry, with K(E) judged against the exact integrals above
+        m_ = s.mat
+        Ec = complex(m_["E"]) * complex(1.0, float(rng.uniform(0.01, 1.0)) * float(rng.choice([-1, 1])))
+        xq = rng.uniform(0.05, 1.0, s.nel)
+        kwq = dict(domain=s.dom, poisson_ratio=m_["nu"], plane=m_.get("plane_spelling", m_["plane"]))
+        mr = pym.AssembleStiffness(pym.Signal("x", xq.copy()), e_modulus=m_["E"], **kwq)
+        mc = pym.AssembleStiffness(pym.Signal("x", xq.copy()), e_modulus=Ec, **kwq)
+        mr.response()
+        mc.response()
+        Kr, Kc = mr.sig_out[0].state.toarray(), mc.sig_out[0].state.toarray()
+        ctx.count("complex_modulus_matrices_compared")
+        errc = float(np.max(np.abs(Kc - (Ec / m_["E"]) * Kr)))
+        if not errc <= 1e-13 * float(np.max(np.abs(Kr))) * abs(Ec / m_["E"]):
+            raise Violation("stiffness/complex-modulus-matrix-is-not-the-modulus-ratio-times-the-real-one", err=errc, E=m_["E"], Ec=Ec,
+                            scale=float(np.max(np.abs(Kr))))
     obs.update({"n": s.n, "nel": s.nel, "ndof": s.ndof, "max_err_over_scale": worst[0],
                 "material": s.mat if s.kind != "general" else getattr(s, "elkind", None)})
     return {"key": key, "nontrivial": True, "obs": obs}
